@@ -124,7 +124,8 @@ def check(run: Run, prog: Program, model: Model, tier: str) -> None:
         "DSL call chain, which is then replayed on the automaton from the empty schema: each step must be accepted in "
         "the state reached so far, each printed value must be bound to the prop it was read from, and the final state "
         "must be exactly the represented state. Container payloads must be printed token by token (members, `...`, "
-        "optional(key) flags, relaxed marker) in order. Determinism: no set-order dependence in the representor.")
+        "optional(key) flags, relaxed marker) in order. Determinism: no set-order dependence in the representor."
+        " The emitted order must accept under every value condition under which any other order of the same refinements accepts; every constructor of a union stores a flat tuple.")
     run.rule_text = ("one obligation per (type, reachable state/shape); non-trivial = states with >= 2 props or a container "
                      "payload, i.e. where order/argument-shape matter")
     run.trusted += ["eval(repr(x)) == x for int, str, bytes, bool, None, finite float, UUID, datetime, date",
